@@ -508,7 +508,13 @@ fn anim_case(a: &[&str]) -> String {
                         fr[o] = r.next() as u8;
                         fr[o + 1] = r.next() as u8;
                         fr[o + 2] = (i * 40) as u8;
-                        fr[o + 3] = 255;
+                        // frames smaller than the canvas with their own alpha plane (lossy frames then carry an ALPH chunk
+                        // whose lossless stream is sized by the FRAME): smooth ramps so that the alpha encoder uses transforms
+                        fr[o + 3] = match alpha {
+                            0 => 255,
+                            3 => r.next() as u8,
+                            _ => (((x - x0) * 9 + (y - y0) * 5 + i * 31) % 256) as u8,
+                        };
                     }
                 }
             }
